@@ -58,6 +58,7 @@ type httpServer struct {
 	mu     sync.Mutex
 	answer *httpAnswer
 	reqs   []string // request targets seen since the last script()
+	hdrs   []http.Header
 }
 
 func newHTTPServer(network, addr string) (*httpServer, error) {
@@ -87,6 +88,7 @@ func (s *httpServer) serve(c net.Conn) {
 	}
 	s.mu.Lock()
 	s.reqs = append(s.reqs, req.RequestURI)
+	s.hdrs = append(s.hdrs, req.Header.Clone())
 	a := s.answer
 	s.mu.Unlock()
 	if a == nil {
@@ -102,7 +104,14 @@ func (s *httpServer) script(a *httpAnswer) {
 	s.mu.Lock()
 	s.answer = a
 	s.reqs = nil
+	s.hdrs = nil
 	s.mu.Unlock()
+}
+
+func (s *httpServer) headers() []http.Header {
+	s.mu.Lock()
+	defer s.mu.Unlock()
+	return append([]http.Header(nil), s.hdrs...)
 }
 
 func (s *httpServer) requests() []string {
